@@ -1,0 +1,163 @@
+//go:build verif
+
+// Contracts for the deductive checks in /verif (structured comments only; this file declares nothing).
+//
+// Function values received as parameters (value getters, logic, failure callbacks) are opaque: every call of one
+// is recorded in a ghost trace (trfn[i] = callee, trres[i] = 1 iff it returned true / a non-nil error, tn = length)
+// and in a per-callee counter ncalls. Getters are deterministic: getStr(f), getBool(f), getSlice*(f).
+package checker
+
+//@ pure calledOnce(f) = select(ncalls, f) == old(select(ncalls, f)) + 1
+//@ pure notCalled(f) = select(ncalls, f) == old(select(ncalls, f))
+//@ pure values(f) = strslice(getSliceBase(f), getSliceLen(f))
+//@
+//@ func (*checker.Checker).StepCount
+//@   property C20
+//@   requires c != nil
+//@   ensures count: result == len(c.steps)
+//@
+//@ func (*checker.Checker).CheckFailed
+//@   names failed
+//@   property C20
+//@   requires c != nil
+//@   requires forall i :: 0 <= i && i < len(c.steps) ==> c.steps[i] != 0
+//@   ensures in-order-stop-at-first-failure: exists k :: 0 <= k && k <= len(c.steps) && tn == old(tn) + (failed ? k + 1 : k) &&
+//@             (forall j :: 0 <= j && j < (failed ? k + 1 : k) ==> select(trfn, old(tn) + j) == c.steps[j]) &&
+//@             (forall j :: 0 <= j && j < k ==> select(trres, old(tn) + j) == 0) &&
+//@             (failed ==> k < len(c.steps) && select(trres, old(tn) + k) != 0) &&
+//@             (!failed ==> k == len(c.steps))
+//@   ensures steps-unchanged: len(c.steps) == old(len(c.steps)) && (forall i :: 0 <= i && i < len(c.steps) ==> c.steps[i] == old(c.steps[i]))
+//@   canary canary-always-fails: failed
+//@   loop 1 invariant range: -1 <= $ri && $ri < len(c.steps)
+//@   loop 1 invariant trace: tn == old(tn) + $ri + 1 &&
+//@             (forall j :: 0 <= j && j <= $ri ==> select(trfn, old(tn) + j) == c.steps[j] && select(trres, old(tn) + j) == 0)
+//@
+//@ func (*checker.Checker).addStep
+//@   property C20
+//@   assigns C:[]checker.step#b, C:[]checker.step#l
+//@   requires c != nil
+//@   ensures appended: len(c.steps) == old(len(c.steps)) + 1 && c.steps[old(len(c.steps))] == f
+//@   ensures prefix-kept: forall i :: 0 <= i && i < old(len(c.steps)) ==> c.steps[i] == old(c.steps[i])
+//@
+//@ func (*checker.Checker).WithValueNotEmptyCheck
+//@   property C20
+//@   assigns C:[]checker.step#b, C:[]checker.step#l
+//@   requires c != nil
+//@   ensures appended: len(c.steps) == old(len(c.steps)) + 1 && result == c
+//@   ensures prefix-kept: forall i :: 0 <= i && i < old(len(c.steps)) ==> c.steps[i] == old(c.steps[i])
+//@   ensures last-is-step: isClosure(c.steps[old(len(c.steps))], "(*checker.Checker).WithValueNotEmptyCheck$1", value, valueName, errorFunc)
+//@ func (*checker.Checker).WithValueNotEmptyCheck$1
+//@   names failed
+//@   property C20
+//@   requires deref(value) != 0 && deref(errorFunc) != 0 && deref(value) != deref(errorFunc)
+//@   ensures fail-iff-empty: failed <==> getStr(deref(value)) == ""
+//@   ensures callback-once-iff-failed: (failed ==> calledOnce(deref(errorFunc))) && (!failed ==> notCalled(deref(errorFunc)))
+//@
+//@ func (*checker.Checker).WithValuesNotEmptyCheck
+//@   property C20
+//@   assigns C:[]checker.step#b, C:[]checker.step#l
+//@   requires c != nil
+//@   ensures appended: len(c.steps) == old(len(c.steps)) + 1 && result == c
+//@   ensures prefix-kept: forall i :: 0 <= i && i < old(len(c.steps)) ==> c.steps[i] == old(c.steps[i])
+//@   ensures last-is-step: isClosure(c.steps[old(len(c.steps))], "(*checker.Checker).WithValuesNotEmptyCheck$1", values, errorFunc)
+//@ func (*checker.Checker).WithValuesNotEmptyCheck$1
+//@   names failed
+//@   property C20
+//@   requires deref(values) != 0 && deref(errorFunc) != 0 && deref(values) != deref(errorFunc)
+//@   ensures fail-iff-some-empty: failed <==> (exists j :: 0 <= j && j < getSliceLen(deref(values)) && values(deref(values))[j] == "")
+//@   ensures callback-once-iff-failed: (failed ==> calledOnce(deref(errorFunc))) && (!failed ==> notCalled(deref(errorFunc)))
+//@   loop 1 invariant range: -1 <= $ri && $ri < getSliceLen(deref(values))
+//@   loop 1 invariant none-empty-so-far: forall j :: 0 <= j && j <= $ri ==> values(deref(values))[j] != ""
+//@
+//@ func (*checker.Checker).WithValueLengthCheck
+//@   property C20
+//@   assigns C:[]checker.step#b, C:[]checker.step#l
+//@   requires c != nil
+//@   ensures appended: len(c.steps) == old(len(c.steps)) + 1 && result == c
+//@   ensures prefix-kept: forall i :: 0 <= i && i < old(len(c.steps)) ==> c.steps[i] == old(c.steps[i])
+//@   ensures last-is-step: isClosure(c.steps[old(len(c.steps))], "(*checker.Checker).WithValueLengthCheck$1", minlength, value, maxlength, valueName, errorFunc)
+//@ func (*checker.Checker).WithValueLengthCheck$1
+//@   names failed
+//@   property C20
+//@   requires deref(value) != 0 && deref(errorFunc) != 0 && deref(value) != deref(errorFunc)
+//@   ensures fail-iff-outside-nonzero-bounds: failed <==> ((deref(minlength) > 0 && len(getStr(deref(value))) < deref(minlength)) ||
+//@             (deref(maxlength) > 0 && len(getStr(deref(value))) > deref(maxlength)))
+//@   ensures callback-once-iff-failed: (failed ==> calledOnce(deref(errorFunc))) && (!failed ==> notCalled(deref(errorFunc)))
+//@
+//@ func (*checker.Checker).WithValueEqualsCheck
+//@   property C20
+//@   assigns C:[]checker.step#b, C:[]checker.step#l
+//@   requires c != nil
+//@   ensures appended: len(c.steps) == old(len(c.steps)) + 1 && result == c
+//@   ensures prefix-kept: forall i :: 0 <= i && i < old(len(c.steps)) ==> c.steps[i] == old(c.steps[i])
+//@   ensures last-is-step: isClosure(c.steps[old(len(c.steps))], "(*checker.Checker).WithValueEqualsCheck$1", value, equal, valueName, errorFunc)
+//@ func (*checker.Checker).WithValueEqualsCheck$1
+//@   names failed
+//@   property C20
+//@   requires deref(value) != 0 && deref(equal) != 0 && deref(errorFunc) != 0 && deref(value) != deref(errorFunc) && deref(equal) != deref(errorFunc)
+//@   ensures fail-iff-unequal: failed <==> getStr(deref(value)) != getStr(deref(equal))
+//@   ensures callback-once-iff-failed: (failed ==> calledOnce(deref(errorFunc))) && (!failed ==> notCalled(deref(errorFunc)))
+//@
+//@ func (*checker.Checker).WithConditionalValueNotEmpty
+//@   property C20
+//@   assigns C:[]checker.step#b, C:[]checker.step#l
+//@   requires c != nil
+//@   ensures appended: len(c.steps) == old(len(c.steps)) + 1 && result == c
+//@   ensures prefix-kept: forall i :: 0 <= i && i < old(len(c.steps)) ==> c.steps[i] == old(c.steps[i])
+//@   ensures last-is-step: isClosure(c.steps[old(len(c.steps))], "(*checker.Checker).WithConditionalValueNotEmpty$1", cond, value, valueName, errorFunc)
+//@ func (*checker.Checker).WithConditionalValueNotEmpty$1
+//@   names failed
+//@   property C20
+//@   requires deref(cond) != 0 && deref(value) != 0 && deref(errorFunc) != 0 && deref(cond) != deref(errorFunc) && deref(value) != deref(errorFunc)
+//@   ensures fail-iff-cond-and-empty: failed <==> (getBool(deref(cond)) && getStr(deref(value)) == "")
+//@   ensures callback-once-iff-failed: (failed ==> calledOnce(deref(errorFunc))) && (!failed ==> notCalled(deref(errorFunc)))
+//@
+//@ func (*checker.Checker).WithConditionalLogicStep
+//@   property C20
+//@   assigns C:[]checker.step#b, C:[]checker.step#l
+//@   requires c != nil
+//@   ensures appended: len(c.steps) == old(len(c.steps)) + 1 && result == c
+//@   ensures prefix-kept: forall i :: 0 <= i && i < old(len(c.steps)) ==> c.steps[i] == old(c.steps[i])
+//@   ensures last-is-step: isClosure(c.steps[old(len(c.steps))], "(*checker.Checker).WithConditionalLogicStep$1", cond, logic, errorFunc)
+//@ func (*checker.Checker).WithConditionalLogicStep$1
+//@   names failed
+//@   property C20
+//@   requires deref(cond) != 0 && deref(logic) != 0 && deref(errorFunc) != 0
+//@   requires deref(cond) != deref(logic) && deref(cond) != deref(errorFunc) && deref(logic) != deref(errorFunc)
+//@   ensures cond-first: select(trfn, old(tn)) == deref(cond)
+//@   ensures logic-once-iff-cond: (getBool(deref(cond)) ==> calledOnce(deref(logic)) && select(trfn, old(tn) + 1) == deref(logic)) &&
+//@             (!getBool(deref(cond)) ==> notCalled(deref(logic)) && tn == old(tn) + 1)
+//@   ensures fail-iff-cond-and-error: failed <==> (getBool(deref(cond)) && select(trres, old(tn) + 1) != 0)
+//@   ensures callback-once-iff-failed: (failed ==> calledOnce(deref(errorFunc)) && tn == old(tn) + 3 && select(trfn, old(tn) + 2) == deref(errorFunc)) &&
+//@             (!failed ==> notCalled(deref(errorFunc)))
+//@
+//@ func (*checker.Checker).WithLogicStep
+//@   property C20
+//@   assigns C:[]checker.step#b, C:[]checker.step#l
+//@   requires c != nil
+//@   ensures appended: len(c.steps) == old(len(c.steps)) + 1 && result == c
+//@   ensures prefix-kept: forall i :: 0 <= i && i < old(len(c.steps)) ==> c.steps[i] == old(c.steps[i])
+//@   ensures last-is-step: isClosure(c.steps[old(len(c.steps))], "(*checker.Checker).WithLogicStep$1", logic, errorFunc)
+//@ func (*checker.Checker).WithLogicStep$1
+//@   names failed
+//@   property C20
+//@   requires deref(logic) != 0 && deref(errorFunc) != 0 && deref(logic) != deref(errorFunc)
+//@   ensures logic-first-once: select(trfn, old(tn)) == deref(logic) && calledOnce(deref(logic))
+//@   ensures fail-iff-error: failed <==> select(trres, old(tn)) != 0
+//@   ensures callback-once-iff-failed: (failed ==> calledOnce(deref(errorFunc)) && tn == old(tn) + 2 && select(trfn, old(tn) + 1) == deref(errorFunc)) &&
+//@             (!failed ==> notCalled(deref(errorFunc)) && tn == old(tn) + 1)
+//@   canary canary-never-fails: !failed
+//@
+//@ func (*checker.Checker).WithValueStep
+//@   property C20
+//@   assigns C:[]checker.step#b, C:[]checker.step#l
+//@   requires c != nil
+//@   ensures appended: len(c.steps) == old(len(c.steps)) + 1 && result == c
+//@   ensures prefix-kept: forall i :: 0 <= i && i < old(len(c.steps)) ==> c.steps[i] == old(c.steps[i])
+//@   ensures last-is-step: isClosure(c.steps[old(len(c.steps))], "(*checker.Checker).WithValueStep$1", logic)
+//@ func (*checker.Checker).WithValueStep$1
+//@   names failed
+//@   property C20
+//@   requires deref(logic) != 0
+//@   ensures never-fails: !failed
+//@   ensures logic-once: calledOnce(deref(logic)) && tn == old(tn) + 1
